@@ -65,6 +65,42 @@ pub fn configs(tier: Tier) -> Vec<String> {
 
 pub fn scenarios(_cfg: &str) -> Vec<Vec<Ev>> {
     let e = Ev::new;
+    let mut v = base_scenarios();
+    // deep heaps: 6-8 registered timers (ascending, descending, zig-zag and duplicate deadlines), one or two cancelled,
+    // then the clock advances step by step with a check after every step; the heap is restructured by every removal
+    let orders: [&[u8]; 5] = [&[0, 1, 2, 3, 4, 4, 3, 2], &[4, 3, 2, 1, 0, 0, 1, 2], &[2, 0, 3, 1, 4, 2, 0, 3], &[0, 1, 1, 2, 2, 2, 3, 3], &[1, 0, 3, 2, 2, 4, 1, 0]];
+    for order in orders {
+        for (n, cancel, newest_first) in crate::hist::deep_queue_patterns(&[6, 8]) {
+            let mut s = vec![];
+            for i in 0..n {
+                s.push(e(CREATE, i, order[i as usize]));
+                s.push(e(POLL, i, (i % 2) as u8));
+            }
+            let mut rest = crate::hist::deep_rest(n, &cancel);
+            if newest_first {
+                // expire the earliest deadline first, then cancel: removal of nodes with parent, siblings and children
+                s.push(e(ADVANCE, 0, 0));
+                s.push(e(CHECK, 0, 0));
+                rest.reverse();
+            }
+            for c in &cancel {
+                s.push(e(DROP_FUT, *c, 0));
+            }
+            for _ in 0..4 {
+                s.push(e(ADVANCE, 2, 0));
+                s.push(e(CHECK, 0, 0));
+                for i in &rest {
+                    s.push(e(POLL, *i, 1));
+                }
+            }
+            v.push(s);
+        }
+    }
+    v
+}
+
+fn base_scenarios() -> Vec<Vec<Ev>> {
+    let e = Ev::new;
     vec![
         // equal deadlines, removal from the middle of the heap, waker swap, expiry
         vec![e(CREATE, 0, 1), e(POLL, 0, 0), e(CREATE, 1, 1), e(POLL, 1, 0), e(CREATE, 2, 0), e(POLL, 2, 0), e(POLL, 1, 1), e(DROP_FUT, 0, 0), e(ADVANCE, 2, 0), e(CHECK, 0, 0), e(POLL, 1, 0), e(POLL, 2, 1)],
